@@ -584,30 +584,40 @@ def _sat_hints(V, m, x, eps):
 
 class _OnlyAxioms:
     """Relevance filter: inside the block the solver gets, of all ground axiom instances, only
-    SQRT(t) >= 0 and SQRT(t)^2 == t (for t >= 0) of the listed square-root terms.  Dropping true axiom
+    s >= 0 and s*s == t (for t >= 0) of the listed square-root symbols s = sqrt(t) (symx.axioms.root keeps the
+    radicand of every root symbol in ctx._root_defs).  The engine's own relevance scoping follows the radicands
+    transitively into the roots of the supporting layers; the two bounds do not need those.  Dropping true axiom
     instances can only turn `unsat` into `sat`/`unknown`, never the other way round."""
 
     def __init__(self, V, roots):
-        self.c = V.c if V.symbolic else None
+        self.c = V.c if (V.symbolic and os.environ.get("C14_NO_AXIOM_FILTER") is None) else None
         self.roots = roots
 
     def __enter__(self):
         if self.c is None:
             return self
         import z3
+        defs = getattr(self.c, "_root_defs", {})
         axs = []
         for r in self.roots:
-            app = r.n if isinstance(r, R) and r.q is None else None
-            if app is not None and z3.is_app(app) and app.decl().name() == "SQRT":
-                t = app.arg(0)
-                axs.append(z3.Implies(t >= 0, z3.And(app >= 0, app * app == t)))
-        self.saved = getattr(self.c, "axioms", [])
+            s = r.n if isinstance(r, R) and r.q is None and not r.d else None
+            if s is not None and s.get_id() in defs and defs[s.get_id()][1] == 2:
+                t = defs[s.get_id()][0]
+                axs.append(z3.Implies(t >= 0, z3.And(s >= 0, s * s == t)))
+        if len(axs) != len(self.roots):
+            self.c = None              # not the expected representation: leave the engine's selection alone
+            return self
+        self.saved = (self.c.axioms, getattr(self.c, "_ax_count", None))
         self.c.axioms = axs
+        if self.saved[1] is not None:
+            self.c._ax_count = -1      # symx.axioms.instances: "list replaced by a harness -> use all of it"
         return self
 
     def __exit__(self, *a):
         if self.c is not None:
-            self.c.axioms = self.saved
+            self.c.axioms = self.saved[0]
+            if self.saved[1] is not None:
+                self.c._ax_count = self.saved[1]
         return False
 
 
